@@ -65,7 +65,9 @@ def strat_scp(tier):
         # in order (None = the first n_present are present)
         present=st.one_of(st.none(), st.none(), st.none(),
                           st.lists(st.booleans(), min_size=3, max_size=3)),
-        n_args=st.one_of(st.none(), st.integers(0, 4))))
+        n_args=st.one_of(st.none(), st.integers(0, 4)),
+        # the argument count given by position: from_bytestring(data, 2)
+        positional=st.booleans()))
 
 
 def _packet_fields(p, names):
@@ -133,7 +135,10 @@ def check_scp(case):
         n_present = sum(pres)
     # same argument count: equal in every field
     with sut("SCPPacket.from_bytestring"):
-        q = packets.SCPPacket.from_bytestring(bs, n_args=n_present)
+        if case.get("positional"):
+            q = packets.SCPPacket.from_bytestring(bs, n_present)
+        else:
+            q = packets.SCPPacket.from_bytestring(bs, n_args=n_present)
     _same(_packet_fields(q, ref.SCP_FIELDS), m, "SCP decode(encode(p), "
           "n_args=number of arguments present)", {"n_args": n_present})
     # any other argument count: agree with the reference decoder
@@ -142,6 +147,8 @@ def check_scp(case):
         if k is None:
             q = packets.SCPPacket.from_bytestring(bs)
             k = 3
+        elif case.get("positional"):
+            q = packets.SCPPacket.from_bytestring(bs, k)
         else:
             q = packets.SCPPacket.from_bytestring(bs, n_args=k)
     _same(_packet_fields(q, ref.SCP_FIELDS), ref.decode_scp(bs, k),
@@ -150,7 +157,9 @@ def check_scp(case):
     dl = len(m["data"])
     return {"nontrivial": 1 <= dl <= 11 or k != n_present,
             "classes": ["present%d" % n_present, "n_args%d" % k] +
-                       (["short-payload"] if 1 <= dl <= 11 else [])}
+                       (["short-payload"] if 1 <= dl <= 11 else []) +
+                       (["count-by-position"] if case.get("positional")
+                        else [])}
 
 
 def strat_bytes(tier):
@@ -159,6 +168,7 @@ def strat_bytes(tier):
                            st.binary(min_size=14, max_size=400)).map(b64),
         "n_args": st.integers(0, 4),
         "flag": st.sampled_from([None, None, 0x87, 0x07]),
+        "positional": st.booleans(),
         # what a socket hands over is not always `bytes`
         "buffer": st.sampled_from(["bytes", "bytes", "bytearray",
                                    "memoryview"])})
@@ -183,7 +193,10 @@ def check_bytes(case):
     require(again == norm, "SDP re-encoding of a decoded datagram differs",
             {"bytes": b.hex(), "again": again.hex()})
     with sut("SCPPacket.from_bytestring"):
-        q = packets.SCPPacket.from_bytestring(raw, n_args=k)
+        if case.get("positional"):
+            q = packets.SCPPacket.from_bytestring(raw, k)
+        else:
+            q = packets.SCPPacket.from_bytestring(raw, n_args=k)
     want = ref.decode_scp(b, k)
     _same(_packet_fields(q, ref.SCP_FIELDS), want,
           "SCP decode of arbitrary bytes", {"bytes": b.hex(), "n_args": k})
